@@ -8,10 +8,13 @@ use crate::verif::util::Rng;
 pub const TARGET_POOL : &[&str] = &[
     "a", "b", "c", "d", "e", "f", "g", "h", "k", "m", "z", "y", "x", "0t", "Zt",
     "out/a", "out/b", "out/c", "out/z", "out/0", "gen/a", "gen/q", "gen/z", "gen/sub/a", "gen/sub/z", "bin/tool", "bin/a",
+    // names whose position differs between the bundle notation (directory first, then its children) and plain string
+    // order: '.', '-' and ' ' sort below '/'
+    "out.log", "out-x", "gen.d", "gen/sub.txt", "gen/sub-1", "bin.lst",
 ];
 
 pub const LEAF_POOL : &[&str] = &[
-    "s1", "s2", "s3", "s4", "0leaf", "zleaf", "src/u", "src/v", "src/w", "in/p", "in/q", "in/deep/r",
+    "s1", "s2", "s3", "s4", "0leaf", "zleaf", "src/u", "src/v", "src/w", "in/p", "in/q", "in/deep/r", "src.cfg", "in-2",
 ];
 
 pub const UNDECLARED_POOL : &[&str] = &["env/one", "env/two", "hidden"];
